@@ -374,8 +374,8 @@ def fatal_event(case, kind):
 def gen_cases(chk):
     rng = chk.rng
     quick = chk.tier == "quick"
-    cfgs = ["MC_FormulaGen_replay.cfg"] if quick else ["MC_FormulaGen_replay.cfg", "MC_FormulaGen_replay4.cfg"]
-    cfgs.append("MC_FormulaGen_replay_deep.cfg")
+    cfgs = ["MC_FormulaGen_replay.cfg", "MC_FormulaGen_replay_deep.cfg"] if quick else \
+        ["MC_FormulaGen_replay.cfg", "MC_FormulaGen_replay4.cfg", "MC_FormulaGen_replay_deep6.cfg"]
     formulas, seen = [], set()
     for cfg in cfgs:
         r = vlib.run_tlc("MC_FormulaGen", cfg, workers=4, coverage=False, timeout=3000)
